@@ -6,11 +6,12 @@ Import ListNotations.
 From Verif Require Import Base.PyValue Model.Compile Proofs.CompileProofs Model.Link Proofs.LinkProofs.
 From Verif Require Import Model.WF Proofs.WFProofs Model.Locate Proofs.LocateProofs.
 From Verif Require Model.RegistrySnapshot Model.Exec Model.Typing.
+From Verif Require Proofs.TypingProofs Proofs.LinkLibProofs.       (* bld-link: the function table of the lowering *)
 (* the tie by translation (last section of this file); required HERE because coqdep stops reading this file at the
    string "count( * )" below (it takes the characters after the parenthesis for the start of a comment) and would not
    record the dependencies on the generated files; imported mid-file, where the names are wanted *)
 From Verif Require Model.PyMini Model.PrimsApi Model.PrimsCompiler Gen.SrcLookup Proofs.SrcLookup Gen.SrcCompiler
-  Proofs.SrcCompiler Proofs.SrcCompilerGroup.
+  Proofs.SrcCompiler Proofs.SrcCompilerGroup Proofs.SrcCompilerWalk.
 Open Scope string_scope.
 Open Scope list_scope.
 Open Scope nat_scope.
@@ -232,6 +233,24 @@ Theorem C05_lowering_preserves_datatypes : forall q xq,
 Proof. exact lower_query_typed. Qed.
 Print Assumptions C05_lowering_preserves_datatypes.
 
+(* ... and the FUNCTION a lowered call stands for is the registered one: the datatype validation above cannot tell
+   month from year (both date -> int); the table of the lowering (name + declared input types of the overload the
+   compiler selected -> constructor of Model/Eval.v, 36 constructors of which 26 are the scalar library modelled for
+   C18) answers a constructor that stands, in Model/Typing.v, for a function of exactly that name, with the declared
+   input types among the signatures the constructor stands for. *)
+Theorem C05_lowering_function_table_faithful : forall f ins fn,
+  lower_func f ins = Some fn ->
+  Typing.func_name fn = f
+  /\ existsb (fun ts => Typing.list_eqb (Typing.func_sig fn ts) ins) TypingProofs.ty_lists3 = true.
+Proof. exact LinkLibProofs.lower_func_faithful. Qed.
+Print Assumptions C05_lowering_function_table_faithful.
+
+Theorem C05_lowered_call_is_the_named_function : forall name ins args e,
+  is_operator name = false -> lower_call name ins args = Some e ->
+  exists fn, lower_func name ins = Some fn /\ e = Ev.EFunc fn args /\ Typing.func_name fn = name.
+Proof. exact LinkLibProofs.lower_call_func. Qed.
+Print Assumptions C05_lowered_call_is_the_named_function.
+
 (* the lowered form of an accepted statement has the shape the executor relies on: the visible columns are the
    first n targets, GROUP BY / HAVING / ORDER BY indexes are in range *)
 Theorem C05_lowered_query_shape : forall sch p st q xq,
@@ -449,7 +468,58 @@ Theorem C05_source_compile_group_by :
 Proof. exact Verif.Proofs.SrcCompilerGroup.group_by_source. Qed.
 Print Assumptions C05_source_compile_group_by.
 
-(* NOT YET TIED BY PROOF (translated and regenerated on every run, so a change is visible in Gen/SrcCompiler.v; the
-   correspondence streams remain their only check):
-   _get_columns_and_aggregates and check_aggregates (one level of the walk with the recursive call opaque),
-   Compiler._unaryop / _between (overload selection; translated), Compiler._binaryop (outside the fragment: `while True`). *)
+(* one level of the aggregate walk.  _get_columns_and_aggregates on node i with accumulators cs / ags: appends [i] to the
+   aggregates when i is an aggregate, to the columns when it is a column, and otherwise what the recursive calls append
+   for the children, in order; the recursive call is an opaque callable assumed to append the model's lists for a child
+   ([colsf], [aggsf] with  map tbl (colsf c) = fst (Compile.cols_aggs (tbl c))).  The result is Compile.cols_aggs of
+   node i; the induction over the tree is CompileProofs.cnode_ind'. *)
+Theorem C05_source_get_columns_and_aggregates_rec :
+  forall (call_ref : nat -> list pv -> pv) (tbl : nat -> Compile.cnode) (kids : nat -> list nat)
+         (mro : string -> list string) (msg : string -> list pv -> pv)
+         (colsf aggsf : nat -> list nat) (kr i : nat) (cs ags : list nat),
+  ref_of Verif.Gen.SrcCompiler.refs "beanquery.compiler._get_columns_and_aggregates" = Some kr ->
+  map tbl (kids i) = Compile.children (tbl i) ->
+  (forall c cs ags, In c (kids i) ->
+     call_ref kr [nref c; PList (map nref cs); PList (map nref ags)] =
+     PTuple [PList (map nref (cs ++ colsf c)); PList (map nref (ags ++ aggsf c))]) ->
+  (forall c, In c (kids i) -> map tbl (colsf c) = fst (Compile.cols_aggs (tbl c))
+                              /\ map tbl (aggsf c) = snd (Compile.cols_aggs (tbl c))) ->
+  exists C A : list nat,
+    call_function call_ref (prim_compiler tbl kids mro msg) Verif.Gen.SrcCompiler.get_columns_and_aggregates_rec
+      [nref i; PList (map nref cs); PList (map nref ags)] =
+    PyMini.Ok (PTuple [PList (map nref (cs ++ C)); PList (map nref (ags ++ A))])
+    /\ map tbl C = fst (Compile.cols_aggs (tbl i)) /\ map tbl A = snd (Compile.cols_aggs (tbl i)).
+Proof. exact Verif.Proofs.SrcCompilerWalk.get_columns_and_aggregates_rec_src. Qed.
+Print Assumptions C05_source_get_columns_and_aggregates_rec.
+
+(* check_aggregates(c_expr) = Compile.check_aggregates: `mixed aggregates and non-aggregates` when both lists of the walk
+   are non-empty, else `aggregates of aggregates` when is_aggregate holds of a child of one of the aggregates, else
+   nothing; get_columns_and_aggregates and is_aggregate are opaque callables assumed to return the model's values *)
+Theorem C05_source_check_aggregates :
+  forall (call_ref : nat -> list pv -> pv) (tbl : nat -> Compile.cnode) (kids : nat -> list nat)
+         (mro : string -> list string) (msg : string -> list pv -> pv) (kg kagg i : nat) (cs ags : list nat),
+  ref_of Verif.Gen.SrcCompiler.refs "beanquery.compiler.get_columns_and_aggregates" = Some kg ->
+  ref_of Verif.Gen.SrcCompiler.refs "beanquery.compiler.is_aggregate" = Some kagg ->
+  (forall c, call_ref kagg [nref c] = PBool (Compile.has_agg (tbl c))) ->
+  call_ref kg [nref i] = PTuple [PList (map nref cs); PList (map nref ags)] ->
+  map tbl cs = fst (Compile.cols_aggs (tbl i)) -> map tbl ags = snd (Compile.cols_aggs (tbl i)) ->
+  (forall a, In a ags -> map tbl (kids a) = Compile.children (tbl a)) ->
+  call_function call_ref (prim_compiler tbl kids mro msg) Verif.Gen.SrcCompiler.check_aggregates [nref i] =
+  match Compile.check_aggregates (tbl i) with
+  | Some e => Exc (CompErr e)
+  | None => PyMini.Ok PNone
+  end.
+Proof. exact Verif.Proofs.SrcCompilerWalk.check_aggregates_source. Qed.
+Print Assumptions C05_source_check_aggregates.
+
+(* NOT TIED BY PROOF (the correspondence streams remain their only check; say so rather than hide it):
+   Compiler._unaryop / _between are translated and regenerated on every run (a change is visible in Gen/SrcCompiler.v) but
+   not proved: they CALL the selected overload class and the constructed node (`function(operand)`, `function(None)`,
+   `candidate(operand, lower, upper)`), index the global OPERATORS dict and build their message with type(node).__name__ -
+   in the present encoding a class is a record and a node a heap reference, neither is callable in PyMini (only PRef is);
+   tying them needs classes and nodes as opaque callables with an attribute table, i.e. a second encoding of the registry.
+   The overload SELECTION they perform is types.function_lookup (C05_source_function_lookup) resp. the exact-signature
+   scan, whose comparison is the same "sig_eq" primitive.  Compiler._binaryop is outside the fragment: its `while True`
+   is bounded (an operand is cast away from `object` at most once, so at most three passes) but the bound rests on what
+   the cast functions return (a non-object dtype), not on the shape of the loop - a structural check in the translator
+   cannot establish it, so it is not unrolled. *)
